@@ -157,8 +157,10 @@ structure State where
   lastFlush : Nat
   /-- persisted utxo state consistency marker -/
   marker : Nat
+  /-- `BestState.TotalTxns` (persisted with the best chain state) -/
+  totalTxns : Nat
 
-def init : State := ⟨emptyCache, fun _ => none, fun _ => none, [], 0, 0⟩
+def init : State := ⟨emptyCache, fun _ => none, fun _ => none, [], 0, 0, 1⟩
 
 def tipId : List Block → Nat
   | [] => 0
@@ -209,7 +211,7 @@ def connect (s : State) (b : Block) (validate bip30 full : Bool) : Option State 
   | none => none
   | some (c1, stxos) =>
     let s1 : State := { s with cache := c1, journal := setJournal s.journal b.id (some stxos),
-                               chainRev := b :: s.chainRev }
+                               chainRev := b :: s.chainRev, totalTxns := s.totalTxns + (1 + b.txs.length) }
     some (flushAt s1 b.id .ifNeeded full false)
 
 /-! ### the view path of a disconnect -/
@@ -329,7 +331,8 @@ def detachOne (s : State) (v : View) : Option (State × View) :=
       | some v1 =>
         let db1 := writeCache cv.1 s.db
         some ({ cache := emptyCache, db := putView v1 db1, journal := setJournal s.journal b.id none,
-                chainRev := rest, lastFlush := tipId rest, marker := tipId rest },
+                chainRev := rest, lastFlush := tipId rest, marker := tipId rest,
+                totalTxns := s.totalTxns - (1 + b.txs.length) },
               commitView v1)
 
 /-- `n` detaches sharing one view. -/
